@@ -44,5 +44,6 @@ theorem closeFinisherShape : Facts.closeFinisherShape = Spec.closeFinisherShape 
 theorem finishAndNotifyShape : Facts.finishAndNotifyShape = Spec.finishAndNotifyShape := by rfl
 theorem setAccessTimeShape : Facts.setAccessTimeShape = Spec.setAccessTimeShape := by rfl
 theorem getAccessCall : Facts.getAccessCall = Spec.getAccessCall := by rfl
+theorem getStorageMetadataShape : Facts.getStorageMetadataShape = Spec.getStorageMetadataShape := by rfl
 
 end Pins
